@@ -449,6 +449,9 @@ func makeSources(w *WSpec) {
 	for f, c := range w.PreFiles {
 		os.WriteFile(f, []byte(c), 0644)
 	}
+	for n, t := range w.Symlinks {
+		os.Symlink(t, n)
+	}
 	for _, f := range w.SourceFiles() {
 		os.MkdirAll(filepath.Dir(f), 0777)
 		c := f
